@@ -7,6 +7,7 @@ import (
 	"fmt"
 	"os"
 	"strings"
+	"time"
 
 	"github.com/tetratelabs/wazero"
 	"github.com/tetratelabs/wazero/api"
@@ -241,12 +242,24 @@ func runOne(engine string, d rtDesc, shared wazero.CompilationCache, dir string,
 	if err != nil {
 		return nil, fmt.Errorf("instantiate: %w", err)
 	}
+	waits := 0
 	for i, st := range script {
 		if st.grow > 0 {
 			prev, ok := mod.Memory().Grow(uint32(st.grow))
 			trace = append(trace, fmt.Sprintf("host-grow(%d) -> %d %v", st.grow, prev, ok))
 		}
-		res, err := mod.ExportedFunction(fmt.Sprintf("f%d", st.fn)).Call(cctx, uint64(uint32(st.arg)))
+		// every call gets its own cancellable context, cancelled after the call returned (the usual
+		// "defer cancel()"): with close-on-context-done that must not touch the module any more
+		callCtx, cancelCall := context.WithCancel(cctx)
+		res, err := mod.ExportedFunction(fmt.Sprintf("f%d", st.fn)).Call(callCtx, uint64(uint32(st.arg)))
+		cancelCall()
+		if err != nil && d.EnsureTerm && !mod.IsClosed() && waits < 2 {
+			// a watcher left behind by the failed call would now close the module: give it a moment
+			waits++
+			for w := 0; w < 8 && !mod.IsClosed(); w++ {
+				time.Sleep(100 * time.Microsecond)
+			}
+		}
 		line := fmt.Sprintf("%d f%d(%d) -> ", i, st.fn, st.arg)
 		if err != nil {
 			line += "error: " + strings.TrimSuffix(strings.SplitN(err.Error(), "\n", 2)[0], " (recovered by wazero)")
